@@ -140,6 +140,12 @@ func (fs *faultState) emit(kind string, plan map[int]int, caseDir string, res fa
 			continue
 		}
 		if ci.phase == 1 && ci.week != cur {
+			if pending && ci.op != "Stat" {
+				// createReport starts with Stat(local.W.json); a week that starts with anything else
+				// (the Removes of a week that needs no report) drew no random number: the pending
+				// entropy read belonged to a week for which createReport made no os call
+				picks = append(picks, "ps")
+			}
 			picks = append(picks, "pw "+HS(ci.week))
 			cur = ci.week
 			pending = false
